@@ -127,6 +127,7 @@ void exec_case(const Case &c) {
     for (const Op &o : c.ops) { if (o.k < 0 || o.k >= NK) { count_skipped(); continue; } per[(unsigned)o.a % (unsigned)nth].push_back(o); }
 
     vsched::on_deadlock = on_deadlock; vsched::on_step_limit = on_steps;
+    vsched::set_mode_pct(hget(c, 3, 0) == 1); if (hget(c, 3, 0) == 1) label("pct_schedule");
     vsched::begin(c.sched.data(), c.sched.size());
     {
         auto router = std::make_unique<ConcurrentSubjectRouter>();
